@@ -10,7 +10,7 @@
      html_link s     style.link (None or empty -> None)
    are Section variables.  Token equality stands for Style.__eq__.
 
-   Console configuration outside the model: no_color=False, not a dumb terminal (TERM not
+   Console configuration outside the model: not a dumb terminal (TERM not
    dumb/unknown), not Jupyter, not Windows, record=True, no render hooks, one thread. *)
 From RichModel Require Import Prelude Cells Segments Wire.
 From RichGen Require Import RecordFacts.
@@ -21,8 +21,16 @@ Record cfg := mkCfg {
   width : Z;        (* Console.width *)
   term : bool;      (* Console.is_terminal *)
   csys : Z;         (* Console._color_system: 0 None, 1 standard, 2 256, 3 truecolor *)
-  legacy : bool     (* Console.legacy_windows *)
+  legacy : bool;    (* Console.legacy_windows *)
+  ncol : bool       (* Console.no_color *)
 }.
+(* `if self.no_color and color_system: buffer = Segment.remove_color(buffer)`: a truthy style is replaced by
+   style.without_color (still truthy: _null = False), a falsy one by None, so the branch taken per segment is
+   unchanged and only the wrapper differs.  The wrapper of the colourless style is `esc` at the code
+   csys + 16 (esc is abstract in its colour-system argument).  The RECORD keeps the unfiltered buffer
+   (t_record.py requires the record to be extended before the filter). *)
+Definition csys_eff (c : cfg) : Z :=
+  if ncol c && negb (csys c =? 0) then csys c + 16 else csys c.
 Definition CS_TRUECOLOR : Z := 3.
 
 Inductive op : Type :=
@@ -139,7 +147,7 @@ Definition render_seg (c : cfg) (g : sg) : str :=
   if render_control_test_first && negb (term c) && ctl g then []
   else
     match sty g with
-    | Some s => if truthy s then esc (csys c) (legacy c) s (txt g)
+    | Some s => if truthy s then esc (csys_eff c) (legacy c) s (txt g)
                 else if negb (term c) && ctl g then [] else txt g
     | None => if negb (term c) && ctl g then [] else txt g
     end.
